@@ -5,10 +5,10 @@ from ctypes import c_int, byref
 import gens, blk, compcases as cc
 from capi import Lib, Buf
 
-THEOREMS = ["C17_target_ge_bound", "C17_target_ge_bound_contract", "C17_fast_destSize", "C17_fast_fill_generic", "C17_hc_mid_destSize_strict"]
-CORRESPONDENCE = [cc.MID_CORR,
+THEOREMS = ["C17_target_ge_bound", "C17_target_ge_bound_contract", "C17_fast_destSize", "C17_fast_fill_generic", "C17_hc_mid_destSize_strict", "C17_hc_chain_destSize"]
+CORRESPONDENCE = [cc.MID_CORR, cc.CHAIN_CORR, cc.CHAIN_SEARCH_CORR,
                   "Model.FastApi.compress_destSize == LZ4_compress_destSize / _destSize_extState (return value, consumed size, bytes, high-water mark)"]
-ORACLES = ["block", "mid"]
+ORACLES = ["block", "mid", "chain"]
 RULE = ("inputs from the shared structured generators; EVERY targetDstSize 1..bound+1 for inputs <= 40 bytes, targets dense around each sequence boundary "
         "of the unconstrained output and random otherwise; entry points LZ4_compress_destSize, LZ4_compress_destSize_extState (any acceleration incl. <= 0 and huge), "
         "LZ4_compress_HC_destSize levels 1..12 (mid, hash-chain, optimal parsers), LZ4_compress_HC_continue_destSize inside a stream followed by further "
@@ -16,12 +16,12 @@ RULE = ("inputs from the shared structured generators; EVERY targetDstSize 1..bo
         "consumed <= offered, the r bytes are strictly valid and decode (extracted specification decoder, and LZ4_decompress_safe into a buffer of exactly `consumed` bytes) "
         "to the consumed prefix, target >= bound => everything consumed, following blocks decode against the consumed history. "
         "non-trivial = 0 < consumed < offered (the budget cut the input); distinct = (input, entry, parameter, target)")
-TRUSTED = ["HC destSize paths: direct oracle only (lz4hc.c is not modelled in Coq)"]
+TRUSTED = ["LZ4_compress_HC_destSize at levels 1-2 (LZ4MID) and 3-9 (hash chain) is modelled and tied; levels 10-12 and LZ4_compress_HC_continue_destSize: direct oracle only"]
 ASSUMPTIONS = ["64-bit little-endian target"]
 
 def build(tier):
     from vlib import build_lib
-    return {"lib": build_lib("default"), "midstate": cc.midstate_lib()}
+    return {"lib": build_lib("default"), "midstate": cc.midstate_lib(), "chainstate": cc.chainstate_lib()}
 
 def gen_cases(tier, seed):
     rng = random.Random(seed * 977 + 17)
@@ -29,10 +29,11 @@ def gen_cases(tier, seed):
     cases = [{"bseed": 0, "count": 1, "mode": "corpus"}]
     cases += [{"bseed": rng.randrange(1 << 48), "count": 5, "mode": ["small", "mid", "mid", "big", "stream", "stream", "accel"][i % 7]} for i in range(n)]
     cases += cc.mid_gen_cases(rng, tier, 0.5)
+    cases += cc.chain_gen_cases(rng, tier, 0.5)
     return cases
 
 def worker_init(ctx):
-    return cc.mid_worker(blk.worker_init(ctx), ctx)
+    return cc.chain_worker(cc.mid_worker(blk.worker_init(ctx), ctx), ctx)
 
 def check_block(st, res, info, what, src_offered, target, r, consumed, out, hist=b""):
     """the destSize contract for one call"""
@@ -167,9 +168,20 @@ def mid_judge(st):
         return None if ok else res["fails"][0]["what"]
     return judge
 
+def chain_judge(st):
+    def judge(kind, src, cap, level, r, consumed, out):
+        if kind != "ds":
+            return None
+        res = cc.new_res()
+        ok = check_block(st, res, {}, "LZ4_compress_HC_destSize", src, cap, r, consumed, out)
+        return None if ok else res["fails"][0]["what"]
+    return judge
+
 def run_case(st, case):
     if case.get("mode") == "hcmid":
         return cc.run_mid_case(st, case, mid_judge(st))
+    if case.get("mode") == "hcchain":
+        return cc.run_chain_case(st, case, chain_judge(st))
     rng = random.Random(case["bseed"])
     res = cc.new_res()
     mode = case["mode"]
